@@ -2,5 +2,4 @@
 
 package verifsim
 
-func (s *Sim) checkBuffers(ctx *StepCtx)     {}
 func (s *Sim) checkPerio(ctx *StepCtx)       {}
